@@ -36,7 +36,9 @@ static const pat PATS[] = {
 	{ "/item/(\\d+)|/thing/(\\d+)", 0, 2, "" },
 	{ "/alpha|/alphabet", 0, 0, "" },
 	{ "/be?ta+", 0, 0, "" },
+	{ "/l/([a-z]+)/w/(\\d+)", "/l/{lang}/w/{1}", 2, "ad" },      // {lang} is a keyword: set_value("lang",..) or map(out,"key;lang",L,n)
 };
+static bool has_keyword(pat const &P) { return P.tmpl && strstr(P.tmpl, "{lang}"); }
 static const int NPATS = sizeof PATS / sizeof PATS[0];
 static std::string gen_group(rng &r, char lang)
 {
@@ -208,7 +210,8 @@ static std::string gen_url(rng &r, tree const &t)
 	int p = r.below(NPATS);
 	if (r.chance(2, 3) && !t.nodes[node].entries.empty()) { espec const &e = t.nodes[node].entries[r.below((uint32_t)t.nodes[node].entries.size())]; if (!e.mount) p = e.pat; }
 	pat const &P = PATS[p];
-	if (P.tmpl) { std::string s = P.tmpl; for (int g = 0; g < (int)strlen(P.glang); g++) { std::string ph = "{" + std::to_string(g + 1) + "}"; size_t at = s.find(ph); if (at != std::string::npos) s.replace(at, ph.size(), gen_group(r, P.glang[g])); } if (p == 7 && r.chance(1, 2)) s += "/opt"; url += s; }
+	if (has_keyword(P)) url += "/l/" + gen_group(r, 'a') + "/w/" + gen_group(r, 'd');
+	else if (P.tmpl) { std::string s = P.tmpl; for (int g = 0; g < (int)strlen(P.glang); g++) { std::string ph = "{" + std::to_string(g + 1) + "}"; size_t at = s.find(ph); if (at != std::string::npos) s.replace(at, ph.size(), gen_group(r, P.glang[g])); } if (p == 7 && r.chance(1, 2)) s += "/opt"; url += s; }
 	else { static char const *ex[] = { "/item/", "/item/9/z", "/thing/77", "/alphabet", "/bta", "/betaaa", "/zzz", "/item/5" }; url += ex[r.below(8)]; }
 	if (r.chance(1, 3) && true) {
 		size_t at = url.empty() ? 0 : r.below((uint32_t)url.size() + 1);
@@ -287,6 +290,9 @@ static void one_tree(rng &r, long long idx, long long dispatches)
 		// number of template parameters = highest {n}
 		int np = 0; for (int g = 1; g <= 6; g++) if (std::string(P.tmpl).find("{" + std::to_string(g) + "}") != std::string::npos) np = g;
 		params.resize(np);
+		bool kw = has_keyword(P);
+		std::string lang = gen_group(r, 'a');
+		if (kw) params[0] = gen_group(r, 'd');
 		for (int form = 0; form < 3; form++) {
 			// absolute key from the root, relative key from the node itself, and via ".." from a child of the node (when it has one)
 			napp *from = all[0]; std::string key;
@@ -294,8 +300,15 @@ static void one_tree(rng &r, long long idx, long long dispatches)
 			else if (form == 1) { from = all[ni]; key = e.key; }
 			else { int child = -1; for (espec const &c : t.nodes[ni].entries) if (c.mount) child = c.child; if (child < 0) continue; from = all[child]; key = "../" + e.key; }
 			std::ostringstream ss;
+			bool by_value = kw && r.chance(1, 2);
 			try {
-				switch (np) {
+				if (kw) {
+					// the keyword comes from the root mapper's helper values, or is named after ';' and passed first
+					if (by_value) { all[0]->mapper().set_value("lang", lang); from->mapper().map(ss, key, params[0]); all[0]->mapper().clear_value("lang"); }
+					else from->mapper().map(ss, key + ";lang", lang, params[0]);
+					O().count(by_value ? "mapper_keyword_by_set_value" : "mapper_keyword_in_key");
+				}
+				else switch (np) {
 				case 0: from->mapper().map(ss, key); break;
 				case 1: from->mapper().map(ss, key, params[0]); break;
 				case 2: from->mapper().map(ss, key, params[0], params[1]); break;
@@ -315,6 +328,7 @@ static void one_tree(rng &r, long long idx, long long dispatches)
 			// the handler must see the same parameters (for the identity group selection)
 			bool identity = (int)e.groups.size() == P.ngroups; for (size_t g = 0; g < e.groups.size() && identity; g++) if (e.groups[g] != (int)g + 1) identity = false;
 			if (e.style == 0 && identity && np == P.ngroups && g_calls[0].args != params) O().viol("route:mapped-url-parameters-differ", "key=" + key + " url=" + url, rp);
+			if (kw && e.style == 0 && identity && g_calls[0].args != std::vector<std::string>({ lang, params[0] })) O().viol("route:mapped-url-parameters-differ", "keyword parameter: key=" + key + " url=" + url + " lang=" + lang, rp);
 			O().count("mapper_roundtrips");
 		}
 	}
